@@ -111,7 +111,7 @@ func VH_C37_candidate() {
 		sym.Assert(tp.Add(tx, true) == nil, "harness: the pool accepts the transaction")
 		pool = append(pool, tx)
 	}
-	maxCount := sym.Choose("maxCount", n+1) // 0 = default
+	maxCount := sym.Choose("maxCount", n+1)                     // 0 = default
 	maxBytes := []int{0, 2, 3, 4, 6}[sym.Choose("maxBytes", 5)] // 0 = default; otherwise a byte budget that some of the pool does not fit
 	txs, size := tp.Candidate(w, maxBytes, maxCount)
 	if maxBytes > 0 {
